@@ -91,6 +91,13 @@ func main() {
 	code := 2
 	func() {
 		defer sc.Close()
+		defer func() {
+			if p := recover(); p != nil {
+				// a bug of the harness is never a verdict about crd
+				fmt.Printf("INCONCLUSIVE: harness failure in check %s: %v\n", *id, p)
+				code = 2
+			}
+		}()
 		f(c)
 		code = c.Finish()
 	}()
